@@ -51,6 +51,15 @@ func registerAll() {
 	reg("R3", "detach => remove (merge, bulk pop of children, inline, root promotion, external collision group collapse/pop) and uninline => store, on every success path", ruleR3)
 	reg("R6", "reject-before-effect: in every function that can return a request rejection, no effect precedes the rejection on any path (interprocedural)", ruleR6)
 
+	reg("P2", "decode scope (everything reachable from DecodeSlab, the raw-header queries and the size/child accessors) has no explicit panic except the unreachable tail of an exhaustive family switch, and no unproven single-result type assertion", ruleP2)
+	reg("P5", "every make in decode scope has a size bounded by a constant, a length, a 16-bit field, a CBOR-delivered count (A-CBOR) or a dominating comparison with such", ruleP5)
+	reg("P6", "every loop in decode scope is a range loop, a counter loop with loop-invariant bound, or a worklist over decoded children", ruleP6)
+	reg("P7", "uint32 additions of ByteSize()/Size() of decoded content go through safeAdd helpers", ruleP7)
+
+	reg("P3", "every slice, index and fixed-width read in decode scope is covered by a dominating length fact (constant/exact guards through reslicing and phis, call-site facts for private helpers, range loops, symbolic guards) or by the stride-loop / chunked-read idioms", ruleP3)
+
+	reg("P8", "accessor totality: interface fields that ByteSize/ChildStorables/Size/Count dereference unconditionally are set by every slab/part literal built in decode scope", ruleP8)
+
 	const tCFG = "CFG path rules on go/ssa (must-precede, edge dominance, loop-iteration coverage, error-edge reachability)"
 	propTable["C03"] = &PropSpec{
 		ID:    "C03",
@@ -135,6 +144,13 @@ func registerAll() {
 		Explanation: "in every function that can return a request rejection (index/range out of bounds, absent key, collision limit, element-count limit, undefined identifier; propagated interprocedurally but not across the storage component boundary) no mutation, store, removal, id allocation, write-set change or Value.Storable call precedes the rejection on any path; each rejection constructor named by the property ends in the contract's category constructor (index/range/absent key/element count/element type -> UserError; collision limit, undefined id, slab not found -> FatalError), every other constructor is categorised, the category types keep Unwrap and the wrap helper recognises all three categories; no error returned by a caller-supplied component (Ledger, BaseStorage, SlabStorage, DigesterBuilder, ValueComparator, HashInputProvider) leaves a function raw; the collision-limit rejection precedes every effect.",
 		NotDecided: "message text ('error names the cause'); effects inside client callbacks (Value.Storable is treated as an effect).",
 		Technique:  "constructor delegation resolution, taint from interface/func-value call results to return operands, backward reachability",
+	}
+	propTable["C19"] = &PropSpec{
+		ID:    "C19",
+		Rules: []string{"P2", "P3", "P5", "P6", "P7", "P8", "X1"},
+		Explanation: "over the whole decode scope (everything reachable from DecodeSlab, the raw-header queries, the inlined-storable decoders and the size/child-reference accessors): no explicit panic except the unreachable tail of an exhaustive family switch; no unproven single-result type assertion; every slice expression, index and fixed-width big-endian read is covered by a dominating length fact (constant and exact guards tracked through reslicing and phis, call-site facts for private helpers, success post-conditions of helpers, range loops, symbolic guards, count==len guards) or by the stride-loop / chunked-read idioms whose arithmetic is checked (offset induction, per-entry stride, guard len==stride*n); every make is bounded by a length, a 16-bit field or a CBOR-delivered count; every loop is a range/counter/worklist loop; decoded sizes are added with overflow checks; decoded literals set the fields their accessors dereference.",
+		NotDecided: "panics inside the CBOR library or client StorableDecoder/TypeInfoDecoder callbacks (A-CBOR, A-CLIENT), allocation proportionality of nested content, runtime nil dereferences other than the accessor fields checked by P8.",
+		Technique:  "forward length-lower-bound dataflow with dominating-guard facts over go/ssa, loop-idiom recognisers, call-graph scoped lint rules",
 	}
 	propTable["C20"] = &PropSpec{
 		ID:    "C20",
